@@ -610,6 +610,7 @@ func (x *Exec) resetPath() {
 	x.mapRot = -1
 	x.mdl = nil
 	x.auxVars = x.auxVars[:0]
+	x.stubCache = map[stubKey]strVal{}
 	x.tb.known = map[*Term][2]uint64{}
 	x.tb.rmemo = map[*Term][2]uint64{}
 	x.nextMap = 0
